@@ -91,7 +91,7 @@ fn main() {
             let base = rng::Rng::new(seed).sub_n("genstats", i as u64);
             let mut r = base.sub("p");
             let k = gen::Knobs::random(&mut r);
-            let shape = gen::ProjectShape { max_files: 3, max_defs: 6, with_main: true, pragma_always: false, name_suffix: String::new() };
+            let shape = gen::ProjectShape { max_files: 3, min_defs: 1, max_defs: 6, with_main: true, pragma_always: false, name_suffix: String::new() };
             let p = gen::gen_project(&mut r, &k, &shape);
             let w = p.render(&mut base.sub("s"), &gen::Style::plain());
             let case = common::make_case(&p, w, &common::Opts::base(), common::quiet_plan(&mut base.sub("k")));
